@@ -1,0 +1,54 @@
+//go:build verif
+
+package routing
+
+// Hooks for the out-of-tree verification harness (build tag verif), spray-and-wait part (C18).
+// Add-only: read accessors for the per-bundle spray metadata of SprayAndWait / BinarySpray and a
+// synchronous trigger of their garbage collection. Nothing here is compiled into a normal build.
+
+import (
+	"github.com/dtn7/dtn7-go/pkg/bpv7"
+)
+
+// VerifSprayMeta returns a copy of the spray metadata kept for a bundle: the remaining copies,
+// the peers the bundle was relayed to, and whether metadata exists at all. ok is false as well if
+// the active routing algorithm is neither SprayAndWait nor BinarySpray.
+func (c *Core) VerifSprayMeta(id bpv7.BundleID) (remaining uint64, sent []bpv7.EndpointID, ok bool) {
+	var md sprayMetaData
+	switch a := c.routing.(type) {
+	case *SprayAndWait:
+		a.dataMutex.RLock()
+		md, ok = a.bundleData[id]
+		a.dataMutex.RUnlock()
+	case *BinarySpray:
+		a.dataMutex.RLock()
+		md, ok = a.bundleData[id]
+		a.dataMutex.RUnlock()
+	}
+	if ok {
+		remaining = md.remainingCopies
+		sent = append([]bpv7.EndpointID(nil), md.sent...)
+	}
+	return
+}
+
+// VerifSprayConf returns the configured multiplicity L and whether binary spray is active.
+func (c *Core) VerifSprayConf() (l uint64, binary bool, ok bool) {
+	switch a := c.routing.(type) {
+	case *SprayAndWait:
+		return a.l, false, true
+	case *BinarySpray:
+		return a.l, true, true
+	}
+	return 0, false, false
+}
+
+// VerifSprayGC runs the algorithm's metadata garbage collection (a cron job in production) once.
+func (c *Core) VerifSprayGC() {
+	switch a := c.routing.(type) {
+	case *SprayAndWait:
+		a.GarbageCollect()
+	case *BinarySpray:
+		a.GarbageCollect()
+	}
+}
